@@ -536,11 +536,14 @@ def r26_cancel(ctx, sc: SimCtx):
     for st in body_of(fn):
         effs += Effects(prog).of(st)
     others = [e for e in effs if not (e[0] == 'mutate' and e[1].endswith('.remove'))]
-    ok = len(rm) == 1 and not others
+    g = CFG(fn)
+    every = bool(rm) and not g.reaches(g.entry, g.exit, avoid=[n for c in rm for n in _nodes_containing(g, c)], labels_excluded=('exc', 'raise', 'reraise'))
+    ok = len(rm) == 1 and not others and every
     ctx.ob('R2.6', 'DEVSSimulator.cancel_event', ok, sample=f'cancel_event: {[short(c) for c in calls]}')
     if not ok:
         ctx.finding('R2.6', 'DEVSSimulator.cancel_event', dc, fn,
-                    f'cancel_event must call <eventlist>.remove({p}) exactly once and have no other effect (remove calls {len(rm)}, other effects {[e[1] for e in others]})',
+                    f'cancel_event must call <eventlist>.remove({p}) exactly once, on every path, and have no other effect (remove calls {len(rm)}, on every path {every}, '
+                    f'other effects {[e[1] for e in others]}): a cancelled event can still be executed',
                     where='DEVSSimulator.cancel_event')
 
 
@@ -1416,6 +1419,18 @@ def r51_strategy_table(ctx, sc: SimCtx):
     se = prog.method('SimEvent', 'execute', inherited=False)
     tr2 = [t for t in walk_shallow(se) if isinstance(t, ast.Try)]
     ok = len(tr2) == 1 and any(hh.type is None or unparse(hh.type) in ('Exception', 'BaseException') for hh in tr2[0].handlers)
+    # consistency: whatever SimEvent.execute lets through must be caught by the handler in _run; a wrapper that converts only
+    # `Exception` lets BaseException subclasses (SystemExit raised by a handler, a model's own abort class) escape the run loop
+    wraps_all = len(tr2) == 1 and any(hh.type is None or unparse(hh.type) == 'BaseException' for hh in tr2[0].handlers)
+    run_all = any(hh.type is None or unparse(hh.type) == 'BaseException' for hh in tr.handlers)
+    cons = wraps_all or run_all
+    ctx.ob('R5.1', 'execute/_run:exception-classes', cons,
+           sample=f'SimEvent.execute converts every exception class: {wraps_all}; _run handler catches BaseException: {run_all}')
+    if not cons:
+        ctx.finding('R5.1', 'SimEvent.execute:exception-classes', prog.cls('SimEvent'), tr2[0] if tr2 else se,
+                    'SimEvent.execute converts only `Exception` subclasses while the handler in _run catches only `Exception`: a handler failing with a '
+                    'BaseException subclass (sys.exit() inside a handler, a model-defined abort) escapes the run loop; the worker dies in state STARTED and the remaining events never run',
+                    where='SimEvent.execute')
     ctx.ob('R5.1', 'SimEvent.execute:wraps', ok, sample=f'SimEvent.execute: try/except {[unparse(hh.type) if hh.type else "bare" for t in tr2 for hh in t.handlers]}')
     if not ok:
         ctx.finding('R5.1', 'SimEvent.execute:wraps', prog.cls('SimEvent'), se, 'SimEvent.execute does not wrap the handler call in try/except Exception', where='SimEvent.execute')
@@ -1586,6 +1601,48 @@ def warmup_priority(ctx, sc: SimCtx, rule):
         ctx.finding(rule, 'DEVSSimulator.initialize:warmup-priority', dci, sched[0] if sched else dfn,
                     'the warm-up event is not scheduled with a priority above NORMAL_PRIORITY: model events at the warm-up instant can run before the statistics are reset',
                     where='DEVSSimulator.initialize')
+
+
+def r64_config_containers(ctx, sc: SimCtx):
+    prog = ctx.prog
+    ctx.rule('R6.4', 'containers that initialize only consumes (initial methods registered before the replication) are not emptied or rebound on the initialize / cleanup path')
+    bci, bfn = prog.resolve(BASE, 'initialize')
+    consumed = set()
+    for loop in walk_shallow(bfn):
+        if isinstance(loop, ast.For) and is_self_attr(loop.iter):
+            consumed.add(loop.iter.attr)
+    ctx.floor('R6.4', 'containers consumed by initialize', len(consumed), 1)
+    # functions reachable from initialize through self-calls
+    reach = {}
+    todo = [(SIM, 'initialize')]
+    while todo:
+        cls, name = todo.pop()
+        for (dc, fn) in [prog.resolve(cls, name)] + ([prog.resolve(cls, name, after=prog.resolve(cls, name)[0].name)] if prog.resolve(cls, name)[1] is not None else []):
+            if fn is None or (dc.name, fn.name) in reach:
+                continue
+            reach[(dc.name, fn.name)] = (dc, fn)
+            for x in walk_shallow(fn):
+                if isinstance(x, ast.Call):
+                    sck = self_call_kind(x, prog)
+                    if sck and sck[1] not in FIRES:
+                        todo.append((SIM, sck[1]))
+    for F in sorted(consumed):
+        bad = []
+        for (dcn, fnn), (dc, fn) in reach.items():
+            for x in walk_shallow(fn):
+                if isinstance(x, ast.Call) and isinstance(x.func, ast.Attribute) and is_self_attr(x.func.value, F) \
+                        and x.func.attr in ('clear', 'pop', 'remove', 'popitem', '__delitem__'):
+                    bad.append((dc, fn, x))
+                elif isinstance(x, (ast.Assign, ast.AugAssign, ast.Delete)) and fn.name != '__init__':
+                    tg = x.targets if isinstance(x, (ast.Assign, ast.Delete)) else [x.target]
+                    if any(is_self_attr(t, F) or (isinstance(t, ast.Subscript) and is_self_attr(t.value, F)) for t in tg):
+                        bad.append((dc, fn, x))
+        ok = not bad
+        ctx.ob('R6.4', f'Simulator.{F}', ok, sample=f'{F} (consumed by initialize) is not mutated by {sorted(k[1] for k in reach)[:6]}…: {ok}')
+        for (dc, fn, x) in bad:
+            ctx.finding('R6.4', f'{dc.name}.{fn.name}:{F}', dc, x,
+                        f'`{short(x)}` empties/rebinds {F} on the initialize path ({dc.name}.{fn.name} is reachable from initialize): what was registered before the first replication '
+                        f'is lost, so a re-initialised replication starts without it and differs from the first', where=f'{dc.name}.{fn.name}')
 
 
 def r62_registries(ctx, sc: SimCtx):
